@@ -140,6 +140,60 @@ def oracle(seq, got, unwrapped=False):
     return None
 
 
+def workflow_clause(ck, r, tier):
+    """'A Workflow reports Ok only if none of its steps is waiting or failed' on the real
+    reconcile_workflow: generated workflows (harness/gen_wf.py) against the in-memory cluster, a
+    fault-free pass plus every API-call index as a crash point; every condition the pass emits
+    names a step's (or the workflow's) outcome, so overall Ok with a Wait/Failure condition, or
+    an overall class that is not the most severe condition class, is a violation."""
+    import gen_wf
+    import wf_run
+
+    n = 14 if tier == "quick" else 150
+    rank = {"depSkip": 0, "skip": 1, "ok": 2, "retry": 3, "permFail": 4}
+    done = 0
+    for attempt in range(n * 12):
+        if done >= n:
+            break
+        case = gen_wf.gen_case(r, rf_prob=0.7)
+        prep = wf_run.prepare_case(case)
+        if prep.problems:
+            continue
+        base = wf_run.run_prepared(prep)
+        if not base.get("log"):
+            continue
+        # a call whose exception is not handled inside the Function (PATCH / DELETE) crashes the step's task:
+        # make sure most workflows contain one
+        if not any(m in ("PATCH", "DELETE") for m, _ in base["log"]) and attempt % 4:
+            continue
+        done += 1
+        passes = [(None, base)]
+        for i in range(len(base["log"])):
+            for kind in ("raise-before", "raise-after"):
+                passes.append(({str(i): kind}, wf_run.run_prepared(prep, faults={i: kind})))
+            # the same crash, but late: every other step has finished by then (nothing left to cancel)
+            late = (lambda j, m, k, i=i: 3.0 if j == i else 0.0)
+            passes.append(({str(i): "raise-before", "late": True},
+                           wf_run.run_prepared(prep, faults={i: "raise-before"}, extra_latency=late)))
+        for faults, obs in passes:
+            ck.evaluated()
+            ck.count("workflow-pass:" + ("faulty" if faults else "clean"))
+            if obs.get("raised") or "overall" not in obs:
+                continue  # an escaping exception is C09's subject
+            classes = [wf_run.REASON_CLASS.get(c[1]) for c in obs["conditions"]]
+            worst = [c for c in classes if c in ("retry", "permFail")]
+            if worst:
+                ck.nontriv(json.dumps(["wf", gen_wf.to_req(case), faults], sort_keys=True, default=str))
+            overall = obs["overall"]["c"]
+            if overall == "ok" and worst:
+                ck.violate({"workflow": gen_wf.to_req(case), "faults": faults, "conditions": obs["conditions"]},
+                           "the Workflow reports Ok although a step is waiting or failed")
+            elif worst and rank.get(overall, 9) < max(rank[c] for c in worst):
+                ck.violate({"workflow": gen_wf.to_req(case), "faults": faults, "conditions": obs["conditions"],
+                            "overall": overall},
+                           "the Workflow's outcome is less severe than one of its steps' outcomes")
+
+
 def run(tier: str) -> int:
     from koreo import result
 
@@ -229,11 +283,17 @@ def run(tier: str) -> int:
             if mine != model:
                 ck.disagree({"op": kind, "seq": [to_req(o) for o in seq]}, model, mine, "combine-observables")
 
+    try:
+        workflow_clause(ck, r, tier)
+    except Exception as e:  # the workflow harness belongs to C01/C02/C09; its trouble is not a C03 verdict
+        ck.notes.append(f"workflow clause not exercised: {e!r}")
+
     return ck.finish(
         rule="random outcome sequences (length 0-12, all five classes, None/empty/non-empty messages and "
              "locations, JSON values, delays incl. 0/equal/negative) each with a random permutation, through "
              "combine and unwrapped_combine; non-trivial = at least two distinct classes present; distinct by "
-             "operation+sequence",
+             "operation+sequence; plus generated workflows through the real reconcile_workflow with every API-call "
+             "index as a crash point (overall outcome vs the conditions' classes)",
     )
 
 
